@@ -90,7 +90,17 @@ thread_local! {
 
 impl State {
     fn pick(&mut self, now: u64) -> (usize, u64) {
-        let alive: Vec<usize> = (0..self.alive.len()).filter(|i| self.alive[*i] && !self.blocked[*i]).collect();
+        let mut alive: Vec<usize> = (0..self.alive.len()).filter(|i| self.alive[*i] && !self.blocked[*i]).collect();
+        if alive.is_empty() {
+            // Everybody still alive was declared blocked. The verdict "blocked" can be wrong (it is taken
+            // from a look at /proc), and a thread that is merely parked in our own condition variable
+            // would then never be scheduled again. So: give the blocked threads another chance. If they
+            // really are blocked the monitor will notice again; only a genuine deadlock stalls for good.
+            for b in self.blocked.iter_mut() {
+                *b = false;
+            }
+            alive = (0..self.alive.len()).filter(|i| self.alive[*i]).collect();
+        }
         if alive.is_empty() {
             return (usize::MAX, 1);
         }
@@ -268,11 +278,43 @@ impl Sched {
             st.deadlocked = true;
             return false;
         }
+        if next == h {
+            // nobody else can run: the holder keeps the baton (it may really be blocked: the plan's wall
+            // limit then ends the run as a harness error)
+            st.blocked[h] = false;
+            self.lost[h].store(false, Ordering::SeqCst);
+            return true;
+        }
         st.log.push((h as u16, 0, false));
         st.current = next;
         st.pending_len = len;
         self.cvs[next].notify_one();
         true
+    }
+
+    /// Diagnostic dump for a stalled plan.
+    pub fn dump(self: &Arc<Sched>) -> String {
+        let st = self.m.lock().unwrap();
+        let mut t = format!(
+            "current={} pending_len={} alive={:?} blocked={:?} entered={:?} parked={:?} released={} tainted={} total={} log_len={} strategy={}",
+            st.current as i64,
+            st.pending_len,
+            st.alive,
+            st.blocked,
+            st.entered,
+            st.parked,
+            st.released,
+            st.tainted,
+            st.total,
+            st.log.len(),
+            st.strategy.to_text()
+        );
+        for (i, tid) in self.tids.iter().enumerate() {
+            let tid = tid.load(Ordering::SeqCst);
+            let state = std::fs::read_to_string(format!("/proc/self/task/{}/stat", tid)).ok().and_then(|s| s.rsplit(')').next().map(|x| x.trim_start().chars().next().unwrap_or('?'))).unwrap_or('-');
+            t.push_str(&format!(" t{}:tid{}:{}:lost{}", i, tid, state, self.lost[i].load(Ordering::SeqCst) as u8));
+        }
+        t
     }
 
     /// Monitor side: is the current baton holder asleep in the kernel (state 'S' in
